@@ -52,7 +52,7 @@ def check(prog, res, tier):
                 # per row: the record written is built from the row, filtered by emptiness only
                 fails = []
                 for e in p.evs('comp-filter'):
-                    if e.func == fi.short:
+                    if e.under(fi.short):
                         t = e.data['text']
                         if not re.fullmatch(r'[A-Za-z_]\w*', t):
                             fails.append(definite(f'cells are filtered by `{t}`, not only by emptiness', e.node))
